@@ -23,6 +23,7 @@ type Region struct {
 	Name        []byte
 	Server      string
 	Offline     bool // hosted by nobody (answers NSRE everywhere)
+	NotInMeta   bool // served, but hbase:meta has no row for it (yet)
 }
 
 // Contains reports whether row lies in [Start,Stop).
@@ -378,6 +379,18 @@ func (c *Cluster) SetOffline(name []byte, off bool) {
 	}
 	c.mu.Unlock()
 	c.Log.Add(Event{Kind: "fault", Info: fmt.Sprintf("region-offline=%v", off), Region: string(name)})
+}
+
+// SetInMeta hides a region's row from hbase:meta or shows it again: a lookup
+// for a key of a hidden region is answered with the preceding row of the table
+// (or none), as a reversed meta scan does while meta lags behind a split.
+func (c *Cluster) SetInMeta(name []byte, in bool) {
+	c.mu.Lock()
+	if r := c.regionByNameLocked(name); r != nil {
+		r.NotInMeta = !in
+	}
+	c.mu.Unlock()
+	c.Log.Add(Event{Kind: "fault", Info: fmt.Sprintf("region-in-meta=%v", in), Region: string(name)})
 }
 
 // SplitRegion replaces a region by two daughters with new ids.
